@@ -1039,6 +1039,7 @@ func TestC20ExchangeScript(t *testing.T) {
 
 		values := make([]error, len(script))
 		var expect []error
+		var notBefore []time.Duration // per scripted error: the delays of the blocks in front of it
 		var delays time.Duration
 		for i, e := range script {
 			values[i] = e.value()
@@ -1048,6 +1049,7 @@ func TestC20ExchangeScript(t *testing.T) {
 			case "indefinite":
 			default:
 				expect = append(expect, values[i])
+				notBefore = append(notBefore, delays)
 			}
 		}
 
@@ -1081,6 +1083,11 @@ func TestC20ExchangeScript(t *testing.T) {
 					if got != want {
 						violate(rt, "C20", "%s: invocation %d: receive %d got %s, scripted is %s", desc, inv, k, exName(got), exName(want))
 					}
+					// (time.Sleep never returns early and the clock is monotonic: a lower bound is no matter of load)
+					if e := time.Since(start); e < notBefore[k] {
+						violate(rt, "C20", "%s: invocation %d: scripted error %d (%s) arrived %s after the invocation, yet the blocks scripted in front of it add up to %s",
+							desc, inv, k, exName(want), e, notBefore[k])
+					}
 				case <-time.After(c20ArriveTimeout):
 					violate(rt, "C20", "%s: invocation %d: scripted error %d (%s) did not arrive within %s (delays add up to %s)",
 						desc, inv, k, exName(want), c20ArriveTimeout, delays)
@@ -1097,7 +1104,10 @@ func TestC20ExchangeScript(t *testing.T) {
 						desc, inv, c20ArriveTimeout, delays)
 				}
 				if e := time.Since(start); e < delays {
-					c20Stats().Label("exchange:closed-before-delays-elapsed(measured)", 1)
+					violate(rt, "C20", "%s: invocation %d: the channel closed %s after the invocation, yet the scripted blocks add up to %s", desc, inv, e, delays)
+				}
+				if len(script) >= 3 && delays != 0 {
+					c20Stats().Label("exchange:delays-judged-with-lower-bound", 1)
 				}
 				continue
 			}
